@@ -112,6 +112,16 @@ def main(tier, replay=None):
             R.count("batch-%d-%s" % (rep, l), True)
             if o != bref[l]:
                 viol.append(dict(line=l, mode="concurrent batch", implementation=o, blake3_of_bytes=bref[l]))
+    # 3a. many LARGE inputs in flight at once (each several buffers long, default buffer): sixteen goroutines, three rounds
+    big_lines = ["0 g:%d:%d -" % (9000 + j, [300000, 1 << 20, 200001, 655360][j % 4]) for j in range(48)]
+    big_ref = run_lines([drv, "b3hex"], [gen_content(9000 + j, [300000, 1 << 20, 200001, 655360][j % 4]).hex() for j in range(48)])
+    for rep in range(3):
+        out = run_lines([h, "batch"], big_lines)
+        for l, o, r_ in zip(big_lines, out, big_ref):
+            R.count("bigbatch-%d-%s" % (rep, l), True)
+            if o != r_:
+                viol.append(dict(line=l, mode="concurrent batch of large inputs", implementation=o, blake3_of_bytes=r_))
+                break
     # 3b. what COMMIT records (file artifact, skip-cache output, plain input): the BLAKE3 of exactly the bytes — for a file larger than
     # 32 MiB whose size is not a multiple of the page size, and after a same-size replacement that carries an OLD timestamp
     import yaml as _yaml, shutil as _sh
